@@ -30,6 +30,7 @@ import numpy as np
 from . import c05
 from . import c05_synth as S
 from .common import fr, quiet_fd, same
+from .translate_c05 import gen_bounds_kernel
 
 NAN = float("nan")
 INF = float("inf")
@@ -928,7 +929,7 @@ def run(c):
         "vector only through nominal * X is what stream A checks on every generated instance",
         "nominals are positive (negative nominals under negated aliases: F2, repaired in 7f4289d)",
     ]
-    c.prove()
+    c.prove(extra=gen_bounds_kernel(c))  # + the per-variable bound / seed kernels translated from the source
     run_pairs(c, c.n(40, 400))
     stream_gp(c, c.n(40, 300))
     probe_f25(c)
@@ -938,7 +939,7 @@ def run(c):
 
 
 def replay(c, rp):
-    c.prove()
+    c.prove(extra=gen_bounds_kernel(c))  # + the per-variable bound / seed kernels translated from the source
     for f in rp.get("failures", []) + rp.get("correspondence_disagreements", []):
         print("replay:", f.get("what"))
         print(str(f.get("case"))[:2000])
